@@ -18,7 +18,7 @@ class Policy:
                  bytes_mode="opaque", max_bytes=2, max_depth=6, kinds=None,
                  max_total_entries=None, max_total_items=None, max_nested_array=None,
                  max_nested_map=None, root_kinds=None, root_lens=None, map_value_kinds=None,
-                 map_lens=None):
+                 map_lens=None, map_key_kinds=None):
         self.max_array, self.max_map, self.max_text = max_array, max_map, max_text
         self.text_mode, self.bytes_mode, self.max_bytes = text_mode, bytes_mode, max_bytes
         self.max_depth = max_depth
@@ -30,6 +30,7 @@ class Policy:
         # optional restrictions (stated bounds): kinds / lengths of the root item, kinds of map values
         self.root_kinds, self.root_lens, self.map_value_kinds = root_kinds, root_lens, map_value_kinds
         self.map_lens = map_lens          # allowed map sizes (e.g. [0, 2]: empty or exactly two entries)
+        self.map_key_kinds = map_key_kinds
 
     def for_node(self, node):
         """Hook: harnesses subclass to vary bounds by position (node.path)."""
@@ -68,6 +69,8 @@ class InputNode:
             kinds = [k for k in kinds if k in pol.root_kinds]
         if self.role == "value" and pol.map_value_kinds:
             kinds = [k for k in kinds if k in pol.map_value_kinds]
+        if self.role == "key" and pol.map_key_kinds:
+            kinds = [k for k in kinds if k in pol.map_key_kinds]
         if self.depth >= pol.max_depth:
             kinds = [k for k in kinds if k not in ("Array", "Map", "Tag")] or kinds
         k = kinds[ctx.choose(len(kinds), "kind@" + self.path)]
